@@ -104,3 +104,6 @@ Proof. unfold G. rewrite app_nth2 by lia. rewrite Nat.sub_diag. reflexivity. Qed
 
 Lemma hd_skipn_nth (i : nat) (l : list R) : hd 0 (skipn i l) = nth i l 0.
 Proof. revert l. induction i as [|i IH]; intros [|x l]; simpl; auto. Qed.
+
+Lemma nth_skipn_add {T} (k i : nat) (l : list T) d : nth i (skipn k l) d = nth (k + i) l d.
+Proof. revert l. induction k as [|k IH]; intros [|x l]; simpl; auto. destruct i; reflexivity. Qed.
